@@ -295,6 +295,8 @@ def check_frame(interp, fi, contract, selfobj, oldenv, exceptional):
 # --------------------------------------------------------------------------- contract application at a call site
 def apply_contract(interp, fi, c, args, kwargs, fr, node):
     interp.contract_used.add(fi.key)
+    if c.get('trusted'):
+        interp.trusted_used.add('assumed (unverified) contract of ' + fi.key)
     env = interp.bind_params(fi, args, kwargs)
     # several contracts for one function: pick the variant whose guard holds for these arguments
     for guard, vkey in c.get('dispatch', []):
